@@ -51,6 +51,10 @@ def gen_output(rng, depth, cap=None):
         lines = ["", ""] + lines
     if rng.random() < 0.2:
         lines += ["", " "]
+    if rng.random() < 0.2 and lines:
+        # valid multi-byte UTF-8 in the output (degree sign, accents, dashes): results are text, not only ASCII
+        k = rng.randrange(len(lines))
+        lines[k] = lines[k][: len(lines[k]) // 2] + rng.choice(["é", "°", "–", "µs", "Ünïcödé", "温度", "→"]) + lines[k][len(lines[k]) // 2:]
     return "\n".join(lines)
 
 
@@ -137,6 +141,14 @@ def expected_core(dev, out_text):
 HWS = b" \t"
 
 
+def _text(b):
+    """the characters the device printed: UTF-8, or ISO-8859-1 when the bytes are not valid UTF-8 (documented fallback of Response)"""
+    try:
+        return b.decode()
+    except UnicodeDecodeError:
+        return b.decode("ISO-8859-1")
+
+
 def check_single(dev, cmd, strip, got, trailing):
     """got = (result, raw_result, failed, channel_input) of one send_command"""
     result, raw, _failed, _ci = got
@@ -147,7 +159,7 @@ def check_single(dev, cmd, strip, got, trailing):
     core = expected_core(dev, out_text)
     want = normalize((out_text or "").encode()) if strip else normalize((out_text or "").encode() + b"\n" + dev.prompt().replace(b"\r", b""))
     problems = []
-    if result.encode() != want:
+    if result != _text(want):
         problems.append(f"result {result[:80]!r}... != device output normalised {want[:80]!r}...")
     body = raw.lstrip(HWS)
     if not body.startswith(core):
@@ -188,10 +200,10 @@ def oracle(sc, res):
             for qt, ev in zip(qs, op[1][1:]):
                 transcript += b"\n" + qt.encode() + ev[0].encode()
             transcript += expected_core(dev, sc.outputs.get(q))
-            shown = result.encode().replace(b"\x08", b"") if sc.echo_junk else result.encode()   # the interactive result keeps the raw echo
-            if shown != normalize(transcript):
+            shown = result.replace("\x08", "") if sc.echo_junk else result   # the interactive result keeps the raw echo
+            if shown != _text(normalize(transcript)):
                 before = res.unread_before[k].replace(b"\r", b"")
-                if before and shown == normalize(b"X" + before + transcript)[1:].lstrip(b"\n"):
+                if before and shown == _text(normalize(b"X" + before + transcript)[1:].lstrip(b"\n")):
                     problems.append("F23")      # known: interactive result starts with the residue left unread by the previous operation
                 else:
                     problems.append(f"send_interactive result {result[:100]!r} != transcript {normalize(transcript)[:100]!r}")
